@@ -16,24 +16,24 @@
 EXTENDS Integers, Sequences, FiniteSets, TLC
 
 Entries == {"ForecastingHorizon", "cutoff.split", "ensemble.fit", "ensemble.predict", "ensemble.update", "evaluate", "expanding.split", "make_reduction", "multiplexer.fit", "naive.fit", "naive.predict", "naive.update", "pipeline.fit", "pipeline.predict", "poly.fit", "poly.predict", "poly.update", "reduce_direct.fit", "reduce_direct.predict", "reduce_dirrec.fit", "reduce_dirrec.predict", "reduce_multioutput.fit", "reduce_multioutput.predict", "reduce_recursive.fit", "reduce_recursive.predict", "reduce_recursive.update", "sliding.split", "stacking.fit", "temporal_train_test_split", "theta.fit", "tuner.fit", "tuner.predict"}
-Faults == {"array_target", "composite_duplicate_names", "composite_duplicate_names_after_valid_fit", "composite_empty", "composite_last_step_not_a_forecaster", "composite_last_step_not_a_forecaster_after_valid_fit", "composite_member_not_a_forecaster", "composite_name_clashes_with_parameter", "composite_name_clashes_with_parameter_after_valid_fit", "composite_name_with_dunder", "composite_name_with_dunder_after_valid_fit", "composite_step_not_a_transformer", "composite_step_not_a_transformer_after_valid_fit", "cutoff_beyond_series", "cv_not_a_splitter", "duplicate_horizon", "empty_horizon", "empty_index", "fractional_horizon", "horizon_and_size_both_given", "horizon_differs_from_fit", "initial_window_larger_than_series", "initial_window_not_larger_than_window", "insample_horizon", "missing_horizon", "missing_horizon_after_rejected_fit", "multivariate_target", "none_horizon", "scoring_not_callable", "seasonal_window_larger_than_series", "sp_noninteger", "sp_nonpositive", "sp_wrongtype", "start_with_window_false", "step_noninteger", "step_nonpositive", "unknown_selected_forecaster", "unknown_strategy", "unsorted_index", "window_larger_than_series", "window_larger_than_series_not_starting_with_window", "window_negative", "window_noninteger", "window_nonpositive", "wrongtype_horizon", "wrongtype_is_relative", "x_index_differs", "x_index_shorter", "x_index_superset"}
+Faults == {"array_target", "composite_duplicate_names", "composite_duplicate_names_after_valid_fit", "composite_empty", "composite_last_step_not_a_forecaster", "composite_last_step_not_a_forecaster_after_valid_fit", "composite_member_not_a_forecaster", "composite_name_clashes_with_optional_parameter", "composite_name_clashes_with_parameter", "composite_name_clashes_with_parameter_after_valid_fit", "composite_name_with_dunder", "composite_name_with_dunder_after_valid_fit", "composite_step_not_a_transformer", "composite_step_not_a_transformer_after_valid_fit", "cutoff_beyond_series", "cv_not_a_splitter", "duplicate_horizon", "empty_horizon", "empty_index", "fractional_horizon", "horizon_and_size_both_given", "horizon_differs_from_fit", "initial_window_larger_than_series", "initial_window_not_larger_than_window", "insample_horizon", "missing_horizon", "missing_horizon_after_rejected_fit", "multivariate_target", "none_horizon", "scoring_not_callable", "seasonal_window_larger_than_series", "sp_noninteger", "sp_nonpositive", "sp_wrongtype", "start_with_window_false", "step_noninteger", "step_nonpositive", "timepoints_as_relative_horizon", "unknown_selected_forecaster", "unknown_strategy", "unsorted_index", "window_larger_than_series", "window_larger_than_series_not_starting_with_window", "window_negative", "window_noninteger", "window_nonpositive", "wrongtype_horizon", "wrongtype_is_relative", "x_index_differs", "x_index_shorter", "x_index_superset"}
 Applicable(e) ==
-    CASE e = "ForecastingHorizon" -> {"duplicate_horizon", "fractional_horizon", "none_horizon", "wrongtype_horizon", "wrongtype_is_relative"}
+    CASE e = "ForecastingHorizon" -> {"duplicate_horizon", "fractional_horizon", "none_horizon", "timepoints_as_relative_horizon", "wrongtype_horizon", "wrongtype_is_relative"}
     [] e = "cutoff.split" -> {"cutoff_beyond_series"}
-    [] e = "ensemble.fit" -> {"array_target", "composite_duplicate_names", "composite_empty", "composite_member_not_a_forecaster", "composite_name_clashes_with_parameter", "composite_name_with_dunder", "duplicate_horizon", "empty_horizon", "empty_index", "fractional_horizon", "multivariate_target", "unsorted_index", "wrongtype_horizon", "x_index_differs"}
-    [] e = "ensemble.predict" -> {"duplicate_horizon", "empty_horizon", "fractional_horizon", "missing_horizon", "wrongtype_horizon"}
+    [] e = "ensemble.fit" -> {"array_target", "composite_duplicate_names", "composite_empty", "composite_member_not_a_forecaster", "composite_name_clashes_with_optional_parameter", "composite_name_clashes_with_parameter", "composite_name_with_dunder", "duplicate_horizon", "empty_horizon", "empty_index", "fractional_horizon", "multivariate_target", "timepoints_as_relative_horizon", "unsorted_index", "wrongtype_horizon", "x_index_differs"}
+    [] e = "ensemble.predict" -> {"duplicate_horizon", "empty_horizon", "fractional_horizon", "missing_horizon", "timepoints_as_relative_horizon", "wrongtype_horizon"}
     [] e = "ensemble.update" -> {"array_target", "multivariate_target", "unsorted_index"}
     [] e = "evaluate" -> {"multivariate_target", "scoring_not_callable", "start_with_window_false", "unknown_strategy", "unsorted_index", "window_larger_than_series", "x_index_differs", "x_index_superset"}
     [] e = "expanding.split" -> {"duplicate_horizon", "empty_horizon", "fractional_horizon", "step_noninteger", "step_nonpositive", "unsorted_index", "window_larger_than_series", "window_larger_than_series_not_starting_with_window", "window_noninteger", "window_nonpositive", "wrongtype_horizon"}
     [] e = "make_reduction" -> {"unknown_strategy"}
-    [] e = "multiplexer.fit" -> {"composite_duplicate_names", "composite_empty", "composite_member_not_a_forecaster", "composite_name_clashes_with_parameter", "composite_name_with_dunder", "unknown_selected_forecaster"}
-    [] e = "naive.fit" -> {"array_target", "duplicate_horizon", "empty_horizon", "empty_index", "fractional_horizon", "multivariate_target", "seasonal_window_larger_than_series", "sp_noninteger", "sp_nonpositive", "sp_wrongtype", "unknown_strategy", "unsorted_index", "window_larger_than_series", "window_negative", "window_noninteger", "window_nonpositive", "wrongtype_horizon", "x_index_differs", "x_index_shorter", "x_index_superset"}
-    [] e = "naive.predict" -> {"duplicate_horizon", "empty_horizon", "fractional_horizon", "missing_horizon", "wrongtype_horizon"}
+    [] e = "multiplexer.fit" -> {"composite_duplicate_names", "composite_empty", "composite_member_not_a_forecaster", "composite_name_clashes_with_optional_parameter", "composite_name_clashes_with_parameter", "composite_name_with_dunder", "unknown_selected_forecaster"}
+    [] e = "naive.fit" -> {"array_target", "duplicate_horizon", "empty_horizon", "empty_index", "fractional_horizon", "multivariate_target", "seasonal_window_larger_than_series", "sp_noninteger", "sp_nonpositive", "sp_wrongtype", "timepoints_as_relative_horizon", "unknown_strategy", "unsorted_index", "window_larger_than_series", "window_negative", "window_noninteger", "window_nonpositive", "wrongtype_horizon", "x_index_differs", "x_index_shorter", "x_index_superset"}
+    [] e = "naive.predict" -> {"duplicate_horizon", "empty_horizon", "fractional_horizon", "missing_horizon", "timepoints_as_relative_horizon", "wrongtype_horizon"}
     [] e = "naive.update" -> {"array_target", "multivariate_target", "unsorted_index"}
-    [] e = "pipeline.fit" -> {"array_target", "composite_duplicate_names", "composite_duplicate_names_after_valid_fit", "composite_last_step_not_a_forecaster", "composite_last_step_not_a_forecaster_after_valid_fit", "composite_name_clashes_with_parameter", "composite_name_clashes_with_parameter_after_valid_fit", "composite_name_with_dunder", "composite_name_with_dunder_after_valid_fit", "composite_step_not_a_transformer", "composite_step_not_a_transformer_after_valid_fit", "duplicate_horizon", "empty_horizon", "empty_index", "fractional_horizon", "multivariate_target", "unsorted_index", "wrongtype_horizon"}
-    [] e = "pipeline.predict" -> {"duplicate_horizon", "empty_horizon", "fractional_horizon", "horizon_differs_from_fit", "missing_horizon", "wrongtype_horizon"}
-    [] e = "poly.fit" -> {"array_target", "duplicate_horizon", "empty_horizon", "empty_index", "fractional_horizon", "multivariate_target", "unsorted_index", "wrongtype_horizon"}
-    [] e = "poly.predict" -> {"duplicate_horizon", "empty_horizon", "fractional_horizon", "missing_horizon", "wrongtype_horizon"}
+    [] e = "pipeline.fit" -> {"array_target", "composite_duplicate_names", "composite_duplicate_names_after_valid_fit", "composite_last_step_not_a_forecaster", "composite_last_step_not_a_forecaster_after_valid_fit", "composite_name_clashes_with_parameter", "composite_name_clashes_with_parameter_after_valid_fit", "composite_name_with_dunder", "composite_name_with_dunder_after_valid_fit", "composite_step_not_a_transformer", "composite_step_not_a_transformer_after_valid_fit", "duplicate_horizon", "empty_horizon", "empty_index", "fractional_horizon", "multivariate_target", "timepoints_as_relative_horizon", "unsorted_index", "wrongtype_horizon"}
+    [] e = "pipeline.predict" -> {"duplicate_horizon", "empty_horizon", "fractional_horizon", "horizon_differs_from_fit", "missing_horizon", "timepoints_as_relative_horizon", "wrongtype_horizon"}
+    [] e = "poly.fit" -> {"array_target", "duplicate_horizon", "empty_horizon", "empty_index", "fractional_horizon", "multivariate_target", "timepoints_as_relative_horizon", "unsorted_index", "wrongtype_horizon"}
+    [] e = "poly.predict" -> {"duplicate_horizon", "empty_horizon", "fractional_horizon", "missing_horizon", "timepoints_as_relative_horizon", "wrongtype_horizon"}
     [] e = "poly.update" -> {"array_target", "multivariate_target", "unsorted_index"}
     [] e = "reduce_direct.fit" -> {"missing_horizon", "missing_horizon_after_rejected_fit"}
     [] e = "reduce_direct.predict" -> {"horizon_differs_from_fit"}
@@ -41,15 +41,15 @@ Applicable(e) ==
     [] e = "reduce_dirrec.predict" -> {"horizon_differs_from_fit"}
     [] e = "reduce_multioutput.fit" -> {"missing_horizon", "missing_horizon_after_rejected_fit"}
     [] e = "reduce_multioutput.predict" -> {"horizon_differs_from_fit"}
-    [] e = "reduce_recursive.fit" -> {"array_target", "duplicate_horizon", "empty_horizon", "empty_index", "fractional_horizon", "multivariate_target", "unsorted_index", "window_larger_than_series", "window_noninteger", "window_nonpositive", "wrongtype_horizon", "x_index_differs", "x_index_shorter", "x_index_superset"}
-    [] e = "reduce_recursive.predict" -> {"duplicate_horizon", "empty_horizon", "fractional_horizon", "missing_horizon", "wrongtype_horizon"}
+    [] e = "reduce_recursive.fit" -> {"array_target", "duplicate_horizon", "empty_horizon", "empty_index", "fractional_horizon", "multivariate_target", "timepoints_as_relative_horizon", "unsorted_index", "window_larger_than_series", "window_noninteger", "window_nonpositive", "wrongtype_horizon", "x_index_differs", "x_index_shorter", "x_index_superset"}
+    [] e = "reduce_recursive.predict" -> {"duplicate_horizon", "empty_horizon", "fractional_horizon", "missing_horizon", "timepoints_as_relative_horizon", "wrongtype_horizon"}
     [] e = "reduce_recursive.update" -> {"array_target", "multivariate_target", "unsorted_index"}
     [] e = "sliding.split" -> {"duplicate_horizon", "empty_horizon", "fractional_horizon", "initial_window_larger_than_series", "initial_window_not_larger_than_window", "step_noninteger", "step_nonpositive", "unsorted_index", "window_larger_than_series", "window_larger_than_series_not_starting_with_window", "window_noninteger", "window_nonpositive", "wrongtype_horizon"}
-    [] e = "stacking.fit" -> {"composite_duplicate_names", "composite_empty", "composite_member_not_a_forecaster", "composite_name_clashes_with_parameter", "composite_name_with_dunder", "missing_horizon"}
+    [] e = "stacking.fit" -> {"composite_duplicate_names", "composite_empty", "composite_member_not_a_forecaster", "composite_name_clashes_with_optional_parameter", "composite_name_clashes_with_parameter", "composite_name_with_dunder", "missing_horizon"}
     [] e = "temporal_train_test_split" -> {"horizon_and_size_both_given", "insample_horizon", "x_index_differs"}
     [] e = "theta.fit" -> {"sp_noninteger", "sp_nonpositive", "sp_wrongtype"}
-    [] e = "tuner.fit" -> {"array_target", "cv_not_a_splitter", "duplicate_horizon", "empty_horizon", "empty_index", "fractional_horizon", "multivariate_target", "unknown_strategy", "unsorted_index", "window_larger_than_series", "wrongtype_horizon"}
-    [] e = "tuner.predict" -> {"duplicate_horizon", "empty_horizon", "fractional_horizon", "missing_horizon", "wrongtype_horizon"}
+    [] e = "tuner.fit" -> {"array_target", "cv_not_a_splitter", "duplicate_horizon", "empty_horizon", "empty_index", "fractional_horizon", "multivariate_target", "timepoints_as_relative_horizon", "unknown_strategy", "unsorted_index", "window_larger_than_series", "wrongtype_horizon"}
+    [] e = "tuner.predict" -> {"duplicate_horizon", "empty_horizon", "fractional_horizon", "missing_horizon", "timepoints_as_relative_horizon", "wrongtype_horizon"}
       [] OTHER -> {}
 
 \* the property for one faulty call and its control
